@@ -75,6 +75,38 @@ impl VerifNode {
         Node::verif_calculate_get_closest_peers(peer_addrs, target, num_of_peers, range)
     }
 
+    /// One round of the storage challenge of the node behind `network` (H12).
+    pub async fn storage_challenge(network: Network) {
+        Node::verif_storage_challenge(network).await
+    }
+
+    /// The answer to a chunk-existence challenge (H12); `chunk_only` = false is the store-quote form.
+    pub async fn respond_x_closest_record_proof(
+        network: &Network,
+        key: NetworkAddress,
+        nonce: ant_protocol::messages::Nonce,
+        difficulty: usize,
+        chunk_only: bool,
+    ) -> Vec<(
+        NetworkAddress,
+        Result<ant_protocol::messages::ChunkProof, ant_protocol::error::Error>,
+    )> {
+        Node::verif_respond_x_closest_record_proof(network, key, nonce, difficulty, chunk_only)
+            .await
+    }
+
+    /// The score of one challenged peer (H12).
+    pub fn mark_peer(
+        duration: std::time::Duration,
+        answers: Vec<(NetworkAddress, ant_protocol::messages::ChunkProof)>,
+        expected_proofs: &std::collections::HashMap<
+            NetworkAddress,
+            ant_protocol::messages::ChunkProof,
+        >,
+    ) -> usize {
+        crate::node::verif_mark_peer(duration, answers, expected_proofs)
+    }
+
     pub fn create_quote_for_storecost(
         network: &Network,
         address: &NetworkAddress,
